@@ -117,6 +117,11 @@ func init() {
 		lits("soyjs", "state.visitCall"),
 		lits("soyjs", "state.visitSwitch"),
 		lits("soyjs", "state.visitDataRef"),
+		lits("soyjs", "state.visitFunction"),
+		lits("soyjs", "state.evalMsgParts"),
+		lits("soyjs", "state.walkPlural"),
+		lits("soyjs", "state.op"),
+		lits("soyjs", "state.visitSoyFile"),
 	})
 	// soymsg/id.go hash32 with its block loop (fuel: one iteration per 12 bytes of limit-start, stated generously);
 	// the hidden loop names of soyhtml (exec.go, funcs.go)
